@@ -14,6 +14,14 @@ NA = {
  "C17": "traversal is a pure function of (tree, callback return table); the visitor allocates nothing and meets no fault or schedule",
 }
 CHECKS = {
+ "C05": dict(level="exploration", ref="5.3",
+   technique="deterministic simulation: seeded API histories over a handle pool with injected allocation failures; ownership-graph reference model; destruction observed at the allocator seam and by userdata callbacks",
+   text="Seeded histories of constructors/parse/get/put/object and array mutation/set_userdata/set_serializer/deep_copy/json_pointer_set/json_patch_apply over 8 handles (shared nodes allowed, no cycles), fault-free and fault-injecting batches. After every op the set of nodes destroyed in that op must equal the set of nodes that lost their last owner in that op, put's return value must match the model count, callbacks run exactly once, failed ops leave ownership with the caller, survivors stay readable (ASan), and nothing is allocated after the final release.",
+   note="Ownership graph re-read through the public API after every op (node identity = address while alive; ASan quarantine keeps addresses from being recycled within an op, and re-allocation is tracked); caller preconditions of §9.1 respected."),
+ "C06": dict(level="exploration", ref="5.4",
+   technique="deterministic simulation: seeded add/replace/delete/lookup histories with injected allocation failures over (a) the json_object API with both string hashes and a seam-supplied hash seed, (b) lh_table with tiny sizes and caller hashes; vector-of-pairs reference model",
+   text="After every op: length, lookup of all 70 pool keys, and the key/value sequence through foreach, foreachC, iterator API, json_c_visit and serialization order equal the model; deleting the current key inside foreach leaves the rest of the iteration intact; failed adds change nothing; layer L additionally checks prev-links and explicit lh_table_resize. A new hash seed (process-level, via the arc4random seam) every 400 runs, recorded in the replay file.",
+   note="Hash seed is process-wide: replay re-installs it in a fresh process. Caller preconditions (KEY_IS_NEW only for absent keys, static strings for CONSTANT_KEY, no adds inside foreach) respected."),
  "C07": dict(level="exploration", ref="5.5",
    technique="deterministic simulation: seeded array operation histories with injected growth/shrink allocation failures vs std::vector reference model; destruction callbacks as release observer",
    text="Seeded histories of add/put/insert/delete-range/shrink/sort/bsearch/get with indices inside, at and beyond the bounds (up to SIZE_MAX-adjacent) on arrays of initial capacity 0..70, fault-free and fault-injecting batches; after every op return code, length, every element (identity) over [0,len+2], and the set of elements released in that op equal the model.",
